@@ -12,9 +12,38 @@ from .lib.core import cstr, cnat, clist, cbool
 TYPES = {'unchanged': 'DUnchanged', 'changed': 'DChanged', 'added': 'DAdded', 'removed': 'DRemoved'}
 
 
+SIBLINGS = [('10.1.2.0/25', '10.1.2.128/25'), ('10.0.0.0/9', '10.128.0.0/9'), ('0.0.0.0/1', '128.0.0.0/1'), ('10.0.0.0/24', '10.0.1.0/24'),
+            ('10.1.2.3/32', '10.1.2.4/32'), ('192.168.0.0/16', '192.169.0.0/16')]
+KIND_SWAP = {'Deployment': 'StatefulSet', 'StatefulSet': 'Deployment', 'ReplicaSet': 'DaemonSet', 'DaemonSet': 'ReplicaSet', 'Job': 'CronJob',
+             'CronJob': 'Job', 'ReplicationController': 'Deployment'}
+
+
 def edit_world(r, W):
     x = r.random()
     W2 = copy.deepcopy(W)
+    y = r.random()
+    if y < 0.12 and W['workloads']:
+        # the same connection moves from one IP range to a disjoint one (both sides get the policy; only the CIDR differs)
+        w = r.choice(W['workloads'])
+        a, b = r.choice(SIBLINGS)
+        if r.random() < 0.5:
+            a, b = b, a
+        d = r.choice(['ingress', 'egress'])
+        key = 'from' if d == 'ingress' else 'to'
+        port = {'protocol': 'TCP', 'port': r.choice(gen.PORTS)}
+        def pol(c):
+            return {'ns': w['ns'], 'name': 'moved', 'podSelector': {'matchLabels': dict(w['labels'])} if w['labels'] else {},
+                    'policyTypes': ['Ingress' if d == 'ingress' else 'Egress'], d: [{key: [{'ipBlock': {'cidr': c}}], 'ports': [port]}]}
+        W['netpols'].append(pol(a))
+        W2 = copy.deepcopy(W)
+        W2['netpols'][-1] = pol(b)
+        return W2, 'ipBlock moved to a disjoint range'
+    if y < 0.22:
+        cands = [i for i, w in enumerate(W2['workloads']) if w['kind'] in KIND_SWAP]
+        if cands:
+            i = r.choice(cands)
+            W2['workloads'][i]['kind'] = KIND_SWAP[W2['workloads'][i]['kind']]
+            return W2, 'workload kind changed (same namespace and name)'
     if x < 0.45:
         for _ in range(20):
             e = c14.apply_edit(r, W, r.choice(c14.EDITS))
